@@ -12,3 +12,9 @@ chk('C16', 'exploration',
     'initial-length classes and every truncation point. Exhaustive where the space is finite and small, sampled elsewhere.',
     'Oracle = arithmetic definitions written from DWARF 5 sections 7.4/7.6 and the gABI; consumption judged by tell().',
     'reference-model oracle over exhaustive/stratified encodings, traced stream consumption', 'DESIGN.md section 4 C16')
+chk('C12', 'exploration',
+    'Reference-model oracle: expressions generated from my own operand table over all 159 operation codes (every code alone in all 64 '
+    'configurations at operand boundaries, random sequences up to 300 ops, nesting to depth 4) are parsed by the real parser; the '
+    'result must equal the generated tree, names must map back to opcodes, and re-encoding must reproduce the input bytes.',
+    'Operand table transcribed from DWARF 5 2.5/7.7.1 and the GNU/WASM extension notes; minimal LEB128 operands.',
+    'ground-truth generator + reference operand table, round-trip re-encoding oracle', 'DESIGN.md section 4 C12')
